@@ -386,7 +386,7 @@ func runC04(c *Ctx) {
 			branches[bi].fork = g.Weighted(2, 1, 1)
 			// the last two branches are private, one to each logger
 			if bi >= len(branches)-2 {
-				branches[bi].fork = 1 + (len(branches)-1-bi)
+				branches[bi].fork = 1 + (len(branches) - 1 - bi)
 			}
 			if f := branches[bi].fork; f == 0 {
 				parent = zapcore.NewTee(parent, cores[bi])
